@@ -10,6 +10,10 @@ import (
 	"time"
 
 	govtypes "github.com/KiraCore/sekai/x/gov/types"
+	abci "github.com/cometbft/cometbft/abci/types"
+	l2types "github.com/KiraCore/sekai/x/layer2/types"
+	recoverytypes "github.com/KiraCore/sekai/x/recovery/types"
+	mstypes "github.com/KiraCore/sekai/x/multistaking/types"
 	slashingtypes "github.com/KiraCore/sekai/x/slashing/types"
 	spendingtypes "github.com/KiraCore/sekai/x/spending/types"
 	stakingtypes "github.com/KiraCore/sekai/x/staking/types"
@@ -29,8 +33,36 @@ func c06Classify(p interface{}) (string, string) {
 		return "C06/gov-endblock/more-votes-than-voters", "a voter who loses the vote permission after voting makes IsQuorum fail (votes > voters) and the gov EndBlocker panics"
 	case strings.Contains(s, "negative coin amount"):
 		return "C06/spending-distribution/underfunded-pool-coins-sub", "enactment of a spending-pool distribution on an under-funded pool panics inside Coins.Sub (ApplyProposal does not recover)"
+	case strings.Contains(s, "SlashStakingPool") && strings.Contains(s, "invalid coins"):
+		return "C06/slash-validator-enactment/zero-burn-invalid-coins", "enactment of a passed SlashValidator proposal whose slashed amount of the default denomination is zero (average slash 0, or nothing staked in it) calls BurnCoins with the invalid coin set {0ukex} and panics on the returned error; the gov EndBlocker does not recover"
+	case strings.Contains(s, "SlashStakingPool") && strings.Contains(s, "nil pointer"):
+		return "C06/slash-validator-enactment/nil-distributor-keeper", "enactment of a passed SlashValidator proposal with a positive slashed amount dereferences the nil distributor keeper of the slashing keeper's copy of the multistaking keeper (app.go copies the keeper before SetDistrKeeper) and panics in the gov EndBlocker"
+	case strings.Contains(s, "no concrete type registered for type URL /kira.recovery.Msg"):
+		return "C06/recovery-rotation/slash-proposal-content-replaced", "rotating the address of a validator named as offender by a stored SlashValidator proposal overwrites that proposal's content with the rotation MESSAGE (NewAnyWithValue(msg)); the proposal can no longer be decoded and every later read of it (gov EndBlocker at its voting end, Jail, genesis export) panics"
+	case strings.Contains(s, "CreateNewSession") && strings.Contains(s, "nil pointer"):
+		return "C06/layer2-join-dapp-enactment/first-session-nil-prev-session", "the JoinDapp enactment that completes a dApp's executor / verifier minimum creates the first session and dereferences the nil previous session (CreateNewSession); when the minimum is completed by a second pending proposal the dry run at submission passes and the panic happens in the gov EndBlocker"
+	case strings.Contains(s, "validator not found") && strings.Contains(s, "BlockValidatorUpdates"):
+		return "C06/staking-endblock/rotated-validator-in-update-queue", "the staking update queues name validators by owner address; a recovery rotation of the owner in the same block as an entry was queued (pause / unpause / activate transaction, inactivation or jailing in BeginBlock) makes ApplyAndReturnValidatorSetUpdates fail with 'validator not found' and the staking EndBlocker panics - a validator owner can halt the chain with two messages"
+	case strings.Contains(s, "FinishDappBootstrap") && strings.Contains(s, "empty address string"):
+		return "C06/layer2-endblock/dapp-bootstrap-empty-team-reserve", "a dApp created by any account with an empty team-reserve address and a positive premint, bonded above min_dapp_bond, panics in the layer2 EndBlocker (MustAccAddressFromBech32) when its bootstrap period ends"
 	}
 	return "", ""
+}
+
+// c06Site: the panic value plus the first frames of the sekai modules on the stack (what c06Classify recognises)
+func c06Site(p interface{}, stack string) string {
+	s := fmt.Sprintf("%.200v", p)
+	n := 0
+	for _, line := range strings.Split(stack, "\n") {
+		if strings.HasPrefix(line, "github.com/KiraCore/sekai/x/") && n < 3 {
+			if i := strings.Index(line, "("); i > 0 {
+				line = line[:i]
+			}
+			s += " @ " + strings.TrimPrefix(line, "github.com/KiraCore/sekai/")
+			n++
+		}
+	}
+	return s
 }
 
 func runC06(r *Rec) {
@@ -98,16 +130,237 @@ func runC06(r *Rec) {
 		}
 	}
 
+	// (3)+(4) a passed SlashValidator proposal: enactment panics with an average slash of zero (invalid coin set) and
+	// with a positive slash (nil distributor keeper)
+	for _, slash := range []sdk.Dec{sdk.ZeroDec(), sdk.NewDecWithPrec(4, 3)} {
+		w := NewWorld(WorldOpts{NAcc: 5, NVal: 3, SudoAccs: []int{4}})
+		A := w.addrs
+		blk := func(dt time.Duration, signer int, msgs ...sdk.Msg) BlockResult {
+			var txs [][]byte
+			if len(msgs) > 0 {
+				txs = append(txs, w.MustSign(msgs, signer, ukex(20000)))
+			}
+			br := w.Block(txs, BlockOpts{Dt: dt})
+			if br.Panicked == nil {
+				w.ApplyUpdates(br.Updates)
+			}
+			return br
+		}
+		val := sdk.ValAddress(A[1])
+		blk(6*time.Second, 1, mstypes.NewMsgUpsertStakingPool(A[1].String(), val.String(), true, sdk.NewDecWithPrec(5, 2)))
+		blk(6*time.Second, 3, mstypes.NewMsgDelegate(A[3].String(), val.String(), ukex(5_000_000)))
+		// a SlashValidator proposal cannot be submitted by message (the dry run at submission already panics and fails the
+		// transaction); the chain raises one itself when a validator with a staking pool is jailed for a double sign
+		{
+			ev := abci.Misbehavior{Type: abci.MisbehaviorType_DUPLICATE_VOTE, Validator: abci.Validator{Address: w.valPriv[1].PubKey().Address(), Power: 1}, Height: w.height, Time: w.now, TotalVotingPower: 3}
+			br := w.Block(nil, BlockOpts{Evidence: []abci.Misbehavior{ev}})
+			if br.Panicked == nil {
+				w.ApplyUpdates(br.Updates)
+			}
+		}
+		blk(6*time.Second, 4, govtypes.NewMsgVoteProposal(1, A[4], govtypes.OptionYes, slash))
+		blk(400*time.Second, 0)
+		var br BlockResult
+		for i := 0; i < 3 && br.Panicked == nil; i++ {
+			br = blk(400*time.Second, 0)
+		}
+		r.Case("witness/slash-enactment/"+slash.String(), true)
+		r.Count(fmt.Sprintf("witness:slash=%s:panicked=%v", slash, br.Panicked != nil))
+		if br.Panicked != nil {
+			if key, what := c06Classify(c06Site(br.Panicked, br.Stack)); key != "" {
+				r.Known(key, what+fmt.Sprintf(" [panic in %s of block %d: %.100v]", br.Phase, w.height, br.Panicked))
+			} else {
+				r.Fail("C06/witness/unexpected-panic", c06Site(br.Panicked, br.Stack), nil)
+			}
+		}
+	}
+	{ // (5) a dApp with an empty team reserve, bonded above the minimum, reaches the end of its bootstrap period
+		w := NewWorld(WorldOpts{NAcc: 5, NVal: 2, SudoAccs: []int{4}})
+		A := w.addrs
+		d := l2types.Dapp{Name: "halt", Denom: "dhalt", Description: "d", Controllers: l2types.Controllers{Whitelist: l2types.AccountRange{Addresses: []string{A[2].String()}}},
+			Pool: l2types.LpPoolConfig{Ratio: sdk.OneDec(), Drip: 100}, Issuance: l2types.IssuanceConfig{Premint: sdk.NewInt(10), Postmint: sdk.NewInt(10)},
+			UpdateTimeMax: 60, ExecutorsMin: 1, ExecutorsMax: 3, VerifiersMin: 1, TotalBond: sdk.Coin{Denom: "ukex", Amount: sdk.ZeroInt()},
+			VoteQuorum: sdk.NewDecWithPrec(30, 2), VotePeriod: 100, VoteEnactment: 100, PoolFee: sdk.NewDecWithPrec(1, 2)}
+		txs := [][]byte{w.MustSign([]sdk.Msg{&l2types.MsgCreateDappProposal{Sender: A[2].String(), Dapp: d, Bond: sdk.NewInt64Coin("ukex", 600_000_000_000)}}, 2, ukex(20000)),
+			w.MustSign([]sdk.Msg{&l2types.MsgBondDappProposal{Sender: A[3].String(), DappName: "halt", Bond: sdk.NewInt64Coin("ukex", 600_000_000_000)}}, 3, ukex(20000))}
+		br := w.Block(txs, BlockOpts{})
+		ok := br.Panicked == nil && len(br.Results) == 2 && br.Results[0].Code == 0 && br.Results[1].Code == 0
+		if ok {
+			w.ApplyUpdates(br.Updates)
+			br = w.Block(nil, BlockOpts{Dt: 605000 * time.Second})
+		}
+		r.Case("witness/dapp-bootstrap-empty-team-reserve", ok)
+		if br.Panicked != nil {
+			if key, what := c06Classify(c06Site(br.Panicked, br.Stack)); key != "" {
+				r.Known(key, what+fmt.Sprintf(" [panic in %s of block %d: %.100v]", br.Phase, w.height, br.Panicked))
+			} else {
+				r.Fail("C06/witness/unexpected-panic", c06Site(br.Panicked, br.Stack), nil)
+			}
+		}
+	}
+
+	{ // (6) two pending JoinDapp proposals that together complete the executor + verifier minimum
+		w := NewWorld(WorldOpts{NAcc: 5, NVal: 2, SudoAccs: []int{4}})
+		A := w.addrs
+		blk := func(dt time.Duration, signer int, msgs ...sdk.Msg) BlockResult {
+			var txs [][]byte
+			if len(msgs) > 0 {
+				txs = append(txs, w.MustSign(msgs, signer, ukex(20000)))
+			}
+			br := w.Block(txs, BlockOpts{Dt: dt})
+			if br.Panicked == nil {
+				w.ApplyUpdates(br.Updates)
+			}
+			return br
+		}
+		d := l2types.Dapp{Name: "sess", Denom: "dsess", Description: "d", Controllers: l2types.Controllers{Whitelist: l2types.AccountRange{Addresses: []string{A[4].String()}}},
+			Pool: l2types.LpPoolConfig{Ratio: sdk.OneDec(), Drip: 100}, Issuance: l2types.IssuanceConfig{Premint: sdk.NewInt(10), Postmint: sdk.NewInt(10)},
+			UpdateTimeMax: 60, ExecutorsMin: 1, ExecutorsMax: 3, VerifiersMin: 1, TotalBond: sdk.Coin{Denom: "ukex", Amount: sdk.ZeroInt()},
+			VoteQuorum: sdk.NewDecWithPrec(30, 2), VotePeriod: 60, VoteEnactment: 30, PoolFee: sdk.NewDecWithPrec(1, 2), TeamReserve: A[2].String()}
+		blk(6*time.Second, 2, &l2types.MsgCreateDappProposal{Sender: A[2].String(), Dapp: d, Bond: sdk.NewInt64Coin("ukex", 20_000_000_000)})
+		m1, _ := govtypes.NewMsgSubmitProposal(A[4], "join", "executor", &l2types.ProposalJoinDapp{Sender: A[0].String(), DappName: "sess", Executor: true, Interx: A[0].String()})
+		m2, _ := govtypes.NewMsgSubmitProposal(A[4], "join", "verifier", &l2types.ProposalJoinDapp{Sender: A[3].String(), DappName: "sess", Verifier: true, Interx: A[3].String()})
+		blk(6*time.Second, 4, m1)
+		blk(6*time.Second, 4, m2)
+		blk(6*time.Second, 4, govtypes.NewMsgVoteProposal(1, A[4], govtypes.OptionYes, sdk.ZeroDec()))
+		blk(6*time.Second, 4, govtypes.NewMsgVoteProposal(2, A[4], govtypes.OptionYes, sdk.ZeroDec()))
+		var br BlockResult
+		for i := 0; i < 6 && br.Panicked == nil; i++ {
+			br = blk(50*time.Second, 0)
+		}
+		r.Case("witness/join-dapp-first-session", true)
+		if br.Panicked != nil {
+			if key, what := c06Classify(c06Site(br.Panicked, br.Stack)); key != "" {
+				r.Known(key, what+fmt.Sprintf(" [panic in %s of block %d: %.100v]", br.Phase, w.height, br.Panicked))
+			} else {
+				r.Fail("C06/witness/unexpected-panic", c06Site(br.Panicked, br.Stack), nil)
+			}
+		}
+	}
+
+	{ // (7) a validator owner pauses and rotates its address in the same block
+		w := NewWorld(WorldOpts{NAcc: 5, NVal: 3, SudoAccs: []int{4}})
+		A := w.addrs
+		secret := fmt.Sprintf("%064x", 7)
+		br := w.Block([][]byte{w.MustSign([]sdk.Msg{recoverytypes.NewMsgRegisterRecoverySecret(A[1].String(), richShaHex(secret), "n", "")}, 1, ukex(20000))}, BlockOpts{})
+		ok := br.Panicked == nil && br.Results[0].Code == 0
+		if ok {
+			w.ApplyUpdates(br.Updates)
+			target := sdk.AccAddress(detKey(100).PubKey().Address())
+			br = w.Block([][]byte{w.MustSign([]sdk.Msg{slashingtypes.NewMsgPause(sdk.ValAddress(A[1])), recoverytypes.NewMsgRotateRecoveryAddress(A[1].String(), A[1].String(), target.String(), secret)}, 1, ukex(20000))}, BlockOpts{})
+		}
+		r.Case("witness/pause-and-rotate", ok)
+		if br.Panicked != nil {
+			if key, what := c06Classify(c06Site(br.Panicked, br.Stack)); key != "" {
+				r.Known(key, what+fmt.Sprintf(" [panic in %s of block %d: %.100v]", br.Phase, w.height, br.Panicked))
+			} else {
+				r.Fail("C06/witness/unexpected-panic", c06Site(br.Panicked, br.Stack), nil)
+			}
+		}
+	}
+
+	// (8) proposals that reach their voting end with ZERO votes while the quorum check still passes
+	for _, shape := range []string{"network-quorum-zero", "user-pool-quorum-zero", "vote-permission-nobody-holds", "voters-lost-permission-before-end"} {
+		w := NewWorld(WorldOpts{NAcc: 5, NVal: 2, SudoAccs: []int{4}})
+		A := w.addrs
+		gk := w.app.CustomGovKeeper
+		var last BlockResult
+		blk := func(dt time.Duration, mid func(sdk.Context), signer int, msgs ...sdk.Msg) bool {
+			var txs [][]byte
+			if len(msgs) > 0 {
+				txs = append(txs, w.MustSign(msgs, signer, ukex(20000)))
+			}
+			last = w.Block(txs, BlockOpts{Dt: dt, Mid: mid})
+			if last.Panicked != nil {
+				return false
+			}
+			w.ApplyUpdates(last.Updates)
+			for _, res := range last.Results {
+				if res.Code != 0 {
+					r.Count("zero-vote:" + shape + ":tx-failed")
+				}
+			}
+			return true
+		}
+		prop := func(c govtypes.Content, who int) sdk.Msg {
+			m, _ := govtypes.NewMsgSubmitProposal(A[who], "t", "d", c)
+			return m
+		}
+		ok := true
+		switch shape {
+		case "network-quorum-zero":
+			ok = blk(6*time.Second, func(ctx sdk.Context) {
+				p := gk.GetNetworkProperties(ctx)
+				p.VoteQuorum = sdk.ZeroDec()
+				gk.SetNetworkProperties(ctx, p)
+			}, 0) && blk(6*time.Second, nil, 4, prop(govtypes.NewSetNetworkPropertyProposal(govtypes.MinIdentityApprovalTip, govtypes.NetworkPropertyValue{Value: 321}), 4))
+		case "user-pool-quorum-zero":
+			pool := spendingtypes.NewMsgCreateSpendingPool("mine", 0, 0, sdk.DecCoins{sdk.NewDecCoinFromDec("ukex", sdk.NewDec(1))}, sdk.ZeroDec(), 30, 20,
+				spendingtypes.PermInfo{OwnerAccounts: []string{A[2].String()}}, spendingtypes.WeightedPermInfo{Accounts: []spendingtypes.WeightedAccount{{Account: A[3].String(), Weight: sdk.OneDec()}}}, A[2], false, 0)
+			pool.ClaimExpiry = 1000
+			ok = blk(6*time.Second, nil, 2, pool) && blk(6*time.Second, nil, 2, spendingtypes.NewMsgDepositSpendingPool("mine", ukex(1_000_000), A[2])) &&
+				blk(6*time.Second, nil, 3, spendingtypes.NewMsgRegisterSpendingPoolBeneficiary("mine", A[3])) &&
+				blk(6*time.Second, nil, 2, prop(spendingtypes.NewSpendingPoolWithdrawProposal("mine", []string{A[3].String()}, ukex(10)), 2)) &&
+				blk(6*time.Second, nil, 2, prop(spendingtypes.NewSpendingPoolDistributionProposal("mine"), 2))
+		case "vote-permission-nobody-holds":
+			ok = blk(6*time.Second, func(ctx sdk.Context) {
+				gk.RemoveWhitelistRolePermission(ctx, govtypes.RoleSudo, govtypes.PermVoteSetNetworkPropertyProposal)
+			}, 0) && blk(6*time.Second, nil, 4, prop(govtypes.NewSetNetworkPropertyProposal(govtypes.MinIdentityApprovalTip, govtypes.NetworkPropertyValue{Value: 322}), 4))
+		case "voters-lost-permission-before-end":
+			ok = blk(6*time.Second, nil, 4, prop(govtypes.NewSetNetworkPropertyProposal(govtypes.MinIdentityApprovalTip, govtypes.NetworkPropertyValue{Value: 323}), 4)) &&
+				blk(6*time.Second, func(ctx sdk.Context) { gk.UnassignRoleFromAccount(ctx, A[4], govtypes.RoleSudo) }, 0)
+		}
+		for i := 0; i < 8 && ok; i++ {
+			ok = blk(120*time.Second, nil, 0)
+		}
+		r.Case("zero-votes/"+shape, true)
+		if last.Panicked != nil {
+			if key, what := c06Classify(c06Site(last.Panicked, last.Stack)); key != "" {
+				r.Known(key, what+fmt.Sprintf(" [%s: panic in %s of block %d]", shape, last.Phase, w.height))
+			} else {
+				r.Fail("C06/zero-votes/"+shape+"/panic", fmt.Sprintf("panic in %s of block %d: %s", last.Phase, w.height, c06Site(last.Panicked, last.Stack)), nil)
+			}
+			continue
+		}
+		props, _ := gk.GetProposals(w.ReadCtx())
+		for _, p := range props {
+			r.Count(fmt.Sprintf("zero-votes:%s:%s:%s", shape, p.GetContent().ProposalType(), p.Result))
+		}
+	}
+
 	// ---------- random proposal / churn histories
-	nHist, nBlocks := 8, 45
+	nHist, nBlocks, nRich, nRichBlocks := 6, 45, 12, 40
 	if r.Tier == "thorough" {
-		nHist, nBlocks = 150, 70
+		nHist, nBlocks, nRich, nRichBlocks = 100, 70, 100, 70
 	}
 	for h := 0; h < nHist; h++ {
 		c06History(r, h, nBlocks)
 	}
+	// ---------- rich histories (richGenerate): every module's messages, proposals that pass and are enacted, every
+	// lifecycle period crossed, absences / inactivation / evidence; every third one lets SlashValidator proposals pass
+	for h := 0; h < nRich; h++ {
+		o := RichOpts{NBlocks: nRichBlocks, NAcc: 10, NVal: 4, Custody: h % 3, Halting: h%3 == 2, Label: fmt.Sprintf("rich-%d", h)}
+		hist := richGenerate(r, o)
+		obs, _ := c01Run(hist, o.NAcc, o.NVal, 0)
+		for b := range obs {
+			r.Case(fmt.Sprintf("%s/block-%d", o.Label, b), len(hist[b].txs) > 0)
+		}
+		r.Count(fmt.Sprintf("rich-history:halting=%v:blocks=%d", o.Halting, len(obs)))
+		if n := len(obs); n > 0 {
+			last := obs[n-1]
+			if last.panicAt != "" {
+				if key, what := c06Classify(last.panicVal); key != "" {
+					r.Known(key, what)
+				} else {
+					r.Fail("C06/"+last.panicAt+"/panic", fmt.Sprintf("%s block %d (%s): %s  [txs: %s]", o.Label, n, last.panicAt, last.panicVal, strings.Join(hist[n-1].kinds, ",")), c01Replay(hist, n-1))
+				}
+			} else if last.updErr != "" {
+				r.Count("cometbft-rejected-update") // consensus-engine rejection is C05's subject
+			}
+		}
+	}
 	r.Mark("c06 done")
-	r.Extra["rule"] = "real blocks with recover around BeginBlock / DeliverTx / EndBlock / Commit: bank traffic, identity records, polls, 14 proposal kinds submitted and voted by a changing electorate, time jumps past voting end and enactment, validator absences and owner pause/unpause, permission churn restricted to GRANTS (revocations after a vote are the recorded finding and run as a witness). A case = one block; non-trivial = a block in which a proposal was tallied or enacted or a validator changed status."
+	r.Extra["rule"] = "real blocks with recover around BeginBlock / DeliverTx / EndBlock / Commit: rich histories of every module's message types (richGenerate: proposals of every registered type that pass and are enacted, time jumps over every period, absences up to inactivation and re-activation, double-sign evidence, recovery rotations of validators, dApp bootstraps) plus proposal-heavy histories: bank traffic, identity records, polls, 14 proposal kinds submitted and voted by a changing electorate, time jumps past voting end and enactment, validator absences and owner pause/unpause, permission churn restricted to GRANTS (revocations after a vote are the recorded finding and run as a witness). A case = one block; non-trivial = a block in which a proposal was tallied or enacted or a validator changed status."
 }
 
 func c06History(r *Rec, h int, nBlocks int) {
@@ -282,7 +535,7 @@ func c06History(r *Rec, h int, nBlocks int) {
 			if key != "" {
 				r.Known(key, what)
 			} else {
-				r.Fail("C06/"+br.Phase+"/panic", fmt.Sprintf("%s block %d (%s): %.300v  [txs: %s]", label, w.height, br.Phase, br.Panicked, strings.Join(kinds, ",")), nil)
+				r.Fail("C06/"+br.Phase+"/panic", fmt.Sprintf("%s block %d (%s): %s  [txs: %s]", label, w.height, br.Phase, c06Site(br.Panicked, br.Stack), strings.Join(kinds, ",")), nil)
 			}
 			return
 		}
